@@ -217,17 +217,21 @@ def record_enc_cases(rng, n, maxbits, orders=(2, 3, 4, 5), budget_factor=1):
             if probe["out"] == "ok":
                 former = int(probe["value"][2][0])
                 warm = make_msg(rng, 40)
-                run_encode(acc, former, warm, "normal", 0, None, budget=budget_factor * (40 * nreach + 4))       # not logged: first use
+                htbl, ht = None, 0
+                if rng.random() < 0.5:
+                    tables.append(random_table(rng, 4 ** k))
+                    ht, htbl = len(tables), tables[-1]
+                run_encode(acc, former, warm, "normal", 0, htbl, budget=budget_factor * (40 * nreach + 4))       # not logged: first use
                 r = impl.call(dsw.remove_nasty_arc, acc, dsw.accessor_to_latter_map(acc), _alarm=60)
                 if r["out"] == "ok":
                     graphs.append(impl.live_of(acc))
                     g2 = len(graphs)
                     for msg in (warm, make_msg(rng, 24), make_msg(rng, 64)):
-                        e = run_encode(acc, former, msg, "normal", 0, None, budget=budget_factor * (len(msg) * nreach + 4))
-                        c = {"kind": "enc", "g": g2, "tbl": 0, "start": former, "msg": msg, "mode": "normal", "vtlen": 0, "enc_out": e["enc_out"],
+                        e = run_encode(acc, former, msg, "normal", 0, htbl, budget=budget_factor * (len(msg) * nreach + 4))
+                        c = {"kind": "enc", "g": g2, "tbl": ht, "start": former, "msg": msg, "mode": "normal", "vtlen": 0, "enc_out": e["enc_out"],
                              "strand": e["strand"], "vt": e["vt"], "ticks": e["ticks"], "dec_out": "none", "decoded": []}
                         if e["enc_out"] == "ok":
-                            d = run_decode(acc, former, e["s"], len(msg), "normal", e["c"], None)
+                            d = run_decode(acc, former, e["s"], len(msg), "normal", e["c"], htbl)
                             c["dec_out"], c["decoded"] = d["out"], d["bits"]
                         cases.append(c)
     return graphs, tables, cases
